@@ -17,6 +17,7 @@ hand-written part: shims, spec functions, lemmas, impl headers).
                                           (directive keywords sit at indent < 4, their content lines at indent >= 4)
     //@  loop <k>                         followed by invariant / decreases / ensures lines for loop ordinal k
     //@  before "<anchor>" [#n]           followed by proof-only lines inserted before the n-th occurrence of anchor
+                                          (anchor "@end": just before the closing brace of the function body)
     //@  keep_dassert | drop_dassert <k>  (default keep) drop the k-th debug_assert with a reason recorded
     //@  cut_readonly ...                    as cut, and the dropped text must be read-only on `self` (checked syntactically: no assignment
                                           to self.*, no `&mut self.*`, only a fixed list of `&self` std methods) — exit 2 otherwise
@@ -701,7 +702,11 @@ def rewrite_body(rf: RepoFile, it: Item, d: FnDirective, rules: dict, info: FnIn
     # before-anchors (searched in body text)
     body_lo = it.body_open - base
     for anchor, nth, plines in d.before:
-        occ = [m.start() for m in re.finditer(re.escape(anchor), text) if m.start() > body_lo and not in_comment(m.start())]
+        if anchor == '@end':
+            # the position just before the closing brace of the function body (the fall-through exit)
+            occ = [len(text.rstrip()) - 1]
+        else:
+            occ = [m.start() for m in re.finditer(re.escape(anchor), text) if m.start() > body_lo and not in_comment(m.start())]
         if nth == 0:
             if len(occ) != 1:
                 raise LostAnchor(f'{rf.rel}: {d.selector}: before-anchor {anchor!r} found {len(occ)} times (need 1)')
